@@ -156,7 +156,7 @@ def run_scenario(case, observer=None):
     spec = dict(case["spec"]); spec["exact"] = True
     n_inc = case["n_inc"]; dt = F(case["dt"])
     ps = net.build(spec)
-    faults = case["faults"]
+    faults = dict(case["faults"])
     ops, impl, info = [], [], []
     state = {"view": None, "k": 0, "devfail": False}
     from relsad.Time import Time
@@ -291,7 +291,7 @@ def run_scenario(case, observer=None):
             if n.connected_line.circuitbreaker.is_open:
                 running = n.controller.sectioning_time.get_hours() > 0
                 own = any(l.failed for l in n.connected_line.section.lines) if n.connected_line.section is not None else False
-                hold = getattr(getattr(n, "mode", None), "name", None) == "SURVIVAL" and bool(n.distribution_network.failed_line)
+                hold = getattr(getattr(n, "mode", None), "name", None) == "SURVIVAL" and any(l.failed for l in n.distribution_network.lines)
                 if not (running or own or hold):
                     bad.append(n.name)
         rec["open_no_reason"] = bad
@@ -302,7 +302,20 @@ def run_scenario(case, observer=None):
     unit = case.get("unit", 3)
     times = [dt * k * 3600 / c17.FACT[unit] for k in range(1, n_inc + 1)]       # the same instants, written in the reporting unit
     with c17._Exact():
-        sim.run_sequence(TimeStamp(), times, c17.U(unit), cb, case.get("save_flag", False))
+        sim.run_sequence(TimeStamp(), times[:case.get("n_inc_first", n_inc)], c17.U(unit), cb, case.get("save_flag", False))
+        if case.get("second"):
+            # a second iteration on the same objects, the way Simulation.run_iteration starts one: reset_system, then the sequence.
+            # model: `ctl reset` (back to the initial state), then the same ops
+            from relsad.simulation.system_config import reset_system
+            reset_system(ps, False)
+            sim.fail_duration = Time(0)
+            ops.append("ctl reset")
+            impl.append(show(v.snapshot()))
+            info.append({"k": 0, "phase": "reset", "inv": v.invariants(), "normal": v.is_normal(), "nf": {n.name: bool(n.failed_line) for n in v.nets}})
+            faults.clear(); faults.update(case["second"]["faults"])
+            state.pop("sens_prev", None)
+            times2 = times[:case["second"]["n_inc"]]
+            sim.run_sequence(TimeStamp(), times2, c17.U(unit), cb, case.get("save_flag", False))
     v.devtrouble = bool(state.get("devtrouble"))       # sensors / intelligent switches failed by themselves in this run
     if state["devfail"]:
         ops, impl = [], []          # sensors / intelligent switches failed by themselves: outside the loop model, oracle only
